@@ -240,7 +240,8 @@ func (p *parser) parse(lex _Lexer) bool {
 			if !ok {
 				latok = p._lasym.(Error).Token
 			}
-			if p._la != ERROR {
+			shiftedError := p._la == ERROR
+			if !shiftedError {
 				p._recovering = false
 			}
 			p._stack.Push(_item{
@@ -252,6 +253,11 @@ func (p *parser) parse(lex _Lexer) bool {
 				},
 			})
 			p._readToken()
+			// Consecutive lexer errors are reported once, by the first of them
+			// (_recover does the same).
+			for shiftedError && p._la == ERROR {
+				p._readToken()
+			}
 		} else { // reduce
 			prod := -action
 			termCount := _termCounts[int(prod)]
@@ -345,6 +351,7 @@ func (p *parser) _recover() bool {
 
 	for {
 		save := p._stack
+		saveErrSym := errSym
 
 		for len(p._stack) >= 1 {
 			// Simulate the reductions that would precede shifting ERROR on a copy of
@@ -386,6 +393,11 @@ func (p *parser) _recover() bool {
 				return true
 			}
 
+			// An error that was shifted but not yet reduced is about to be
+			// discarded. It came first, so it is the one to report.
+			if e, ok := p._stack.Peek(0).Sym.(Error); ok {
+				errSym = e
+			}
 			p._stack.Pop(1)
 		}
 
@@ -394,6 +406,7 @@ func (p *parser) _recover() bool {
 		}
 
 		p._stack = save
+		errSym = saveErrSym
 		p._readToken()
 	}
 }
